@@ -91,10 +91,10 @@ def verb_sets(quick):
 
 def operands(quick):
     """(right operands, dictionaries (Each only), left operands)."""
-    base = [0, 1, 2.5, C('a'), '', 'a', 'abc', [], [1], [1, 2], [3, 1, 2], [3, 1, 2, 5, 4], [1.5, 2.5], [0.5, 2.0, 4.0, 1.0],
+    base = [0, 1, 2.5, C('a'), Y('foo'), '', 'a', 'abc', [], [1], [1, 2], [3, 1, 2], [3, 1, 2, 5, 4], [1.5, 2.5], [0.5, 2.0, 4.0, 1.0],
             [[1, 2], [3, 4]], [[1, 2, 3], [4, 5, 6]], [[[1, 2], [3, 4]], [[5, 6], [7, 8]]], [1, [2, 3]], [[1], [2, 3]],
             ['ab', 'cd'], ['a', ['b'], 'c'], [5, 1, 2, 3, 4, 7], [4, 2, 0]]         # [4 2 0]: a zero after the first position
-    more = [-3, 5, 2, 0.5, Y('foo'), C('b'), 'hello', [2], [2.0], [1, 1, 2], [2, 0, 1], [4, 2, 7, 1], [0, 1, 0, 1, 0],
+    more = [-3, 5, 2, 0.5, Y('x'), C('b'), 'hello', [2], [2.0], [1, 1, 2], [2, 0, 1], [4, 2, 7, 1], [0, 1, 0, 1, 0],
             [1, 2, 3, 4, 5], [1.5], [2, 0.5, -1.5], [[1.5, 2], [3, 4]], [[1], [2], [3]], [[1, 2, 3]], [[1, 2], 3],
             [1, [2, [3]]], [[], [1]], ['a', 'bcd'], [1, 'a', C('b')], [C('a'), C('b')], [Y('foo'), Y('x')],
             [1, [2, [3, [4], 5], 6], 7], ['f', ['l', 'at'], 'ten'], [[1, 2], [3, 4], [5, 6]], [10, 20, 30]]
